@@ -963,7 +963,22 @@ pub fn gen_macros(_asm: &Asm, sh: &mut Shards, path: &str, workdir: &str) {
     let exe = std::env::current_exe().unwrap();
     let outp = format!("{}/macro_events.ndjson", workdir);
     let _ = std::fs::remove_file(&outp);
-    let cases: Vec<String> = std::fs::read_to_string(path).expect("macro case file").lines().filter(|l| !l.trim().is_empty()).map(|l| l.to_string()).collect();
+    let mut cases: Vec<String> = std::fs::read_to_string(path).expect("macro case file").lines().filter(|l| !l.trim().is_empty()).map(|l| l.to_string()).collect();
+    // macros with 1 .. 14 parameters (names that are prefixes of each other: p1 / p10 / p11), every parameter used, in
+    // source order and in reverse; the reference is the body written out by hand
+    for n in 1..=14usize {
+        for rev in [false, true] {
+            let params: Vec<String> = (0..n).map(|i| format!("p{}", i)).collect();
+            let order: Vec<usize> = if rev { (0..n).rev().collect() } else { (0..n).collect() };
+            let body: Vec<Value> = order.iter().map(|i| json!({"k":"ins","toks":["mov", if i % 2 == 0 { "ax" } else { "dx" }, ",", format!("p{}", i)]})).collect();
+            let args: Vec<Value> = (0..n).map(|i| json!([format!("{}", 100 + i * 7)])).collect();
+            let code: Vec<Value> = order.iter().map(|i| json!(["mov", if i % 2 == 0 { "ax" } else { "dx" }, ",", format!("{}", 100 + i * 7)])).collect();
+            cases.push(json!({"lib":[{"name":"many","params":params,"body":body}],"use":{"name":"many","args":args},"err":"","code":code}).to_string());
+        }
+    }
+    let path_all = format!("{}/macro_cases_all.ndjson", workdir);
+    std::fs::write(&path_all, cases.join("\n") + "\n").unwrap();
+    let path: &str = &path_all;
     let done = |p: &str| std::fs::read_to_string(p).map(|s| s.lines().count()).unwrap_or(0);
     let mut from = 0usize;
     while from < cases.len() {
